@@ -141,7 +141,31 @@ func planC16(c *Ctx, run int64) *Plan {
 	day := int64(19358 + r.IntN(1000)) // days since epoch: 2023-01-01 ..
 	sec := Pick(r, []int64{0, 1, 3600 * 12, 86399, 86398, 22*3600 + 1800, 23*3600 + 1800, 1800, 3*3600 + 1, 21*3600 + 59*60 + 59})
 	mk(Op{K: "clock", I: day*86400 + sec})
-	def, extVals := mergedCorrection(c.Repo, d.Regime, d.Addons)
+	// every regime × addon pairing: the same invoice without its addons, with another addon, or with
+	// several addons of its regime at once (their correction definitions then apply together)
+	addons := d.Addons
+	setAddons := false
+	if Chance(r, 0.3) {
+		setAddons = true
+		var same []string
+		for _, a := range allAddons(c.Repo) {
+			if pre := strings.SplitN(a, "-", 2)[0]; strings.EqualFold(pre, d.Regime) || pre == "eu" {
+				same = append(same, a)
+			}
+		}
+		switch v := r.IntN(10); {
+		case v < 4:
+			addons = nil
+		case v < 6 || len(same) == 0:
+			addons = []string{Pick(r, allAddons(c.Repo))}
+		case v < 8:
+			addons = append(append([]string{}, d.Addons...), Pick(r, same))
+		default:
+			addons = []string{Pick(r, same), Pick(r, same)}
+		}
+		addons = uniqStrings(addons)
+	}
+	def, extVals := mergedCorrection(c.Repo, d.Regime, addons)
 	stampMode := r.IntN(4) // 0 none, 1 header, 2 options, 3 header (signed)
 	if len(def.Stamps) == 0 && stampMode != 0 && Chance(r, 0.5) {
 		// an unrelated stamp on the source header
@@ -156,13 +180,8 @@ func planC16(c *Ctx, run int64) *Plan {
 		// a source produced elsewhere: valid, digest matching, but not in this library's normal form
 		mk(Op{K: "denorm"})
 	}
-	if Chance(r, 0.3) {
-		// every regime × addon pairing: the same invoice without its addons, or with another addon
-		a := ""
-		if Chance(r, 0.35) {
-			a = Pick(r, allAddons(c.Repo))
-		}
-		mk(Op{K: "setaddons", S: a})
+	if setAddons {
+		mk(Op{K: "setaddons", S: strings.Join(addons, ",")})
 	}
 	signed := stampMode == 3 || Chance(r, 0.4)
 	if signed {
@@ -396,7 +415,11 @@ func execC16(x *X) {
 			if op.S == "" {
 				v.Get("doc").Del("$addons")
 			} else {
-				v.Get("doc").Set("$addons", &JV{K: 'a', A: []*JV{JStr(op.S)}})
+				arr := &JV{K: 'a'}
+				for _, a := range strings.Split(op.S, ",") {
+					arr.A = append(arr.A, JStr(a))
+				}
+				v.Get("doc").Set("$addons", arr)
 			}
 			e2, err := ParseEnv(v.Encode(nil))
 			if err != nil {
@@ -410,7 +433,16 @@ func execC16(x *X) {
 				d = &Doc{Name: d.Name, Regime: d.Regime, Kind: d.Kind, Env: Marshal(e2)}
 				d.Addons = nil
 				if op.S != "" {
-					d.Addons = []string{op.S}
+					// what the calculated source says it uses (an addon may pull in others)
+					d.Addons = nil
+					if al := srcT.Get("doc").Get("$addons"); al != nil {
+						for _, a := range al.A {
+							d.Addons = append(d.Addons, a.Str())
+						}
+					}
+					if len(d.Addons) > 1 {
+						x.Probe("source-with-several-addons")
+					}
 				}
 				def, _ = mergedCorrection(x.C.Repo, d.Regime, d.Addons)
 				x.Probe("source-with-replaced-addons")
@@ -598,6 +630,16 @@ func execC16(x *X) {
 		}
 	}
 	x.R.SimTimeS = time.Since(t0).Seconds()
+}
+
+func uniqStrings(l []string) []string {
+	var out []string
+	for _, e := range l {
+		if !contains(out, e) {
+			out = append(out, e)
+		}
+	}
+	return out
 }
 
 func contains(l []string, s string) bool {
@@ -940,6 +982,13 @@ func c16agree(x *X, what string, src *gobl.Envelope, o *c16opts, lres *gobl.Enve
 						args = append(args, "--credit")
 					case o != nil && o.onlyType() && o.typ == "debit-note" && x.P.Run%2 == 0:
 						args = append(args, "--debit")
+					case o != nil && !o.onlyType() && o.typ == "credit-note" && x.P.Run%3 == 1:
+						// the type as a flag, everything else as the options object
+						args = append(args, "--credit", "--data", string(optData))
+						x.Probe("cobra-type-flag-with-options-object")
+					case o != nil && !o.onlyType() && o.typ == "debit-note" && x.P.Run%3 == 1:
+						args = append(args, "--debit", "-d", string(optData))
+						x.Probe("cobra-type-flag-with-options-object")
 					default:
 						args = append(args, "--data", string(optData))
 					}
